@@ -1034,3 +1034,29 @@ Lemma source_round2 :
   Gen.C18.iter_all_fnc_stop_test = "if !fnc(iterator.Key(), val) { return nil }"%string.
 Proof. vm_compute. repeat split; reflexivity. Qed.
 
+
+(** ================= 10. rounds 3-4: every pending licence is seen by every reader ================= *)
+(** the export lists every licence of the store (no page, no limit), so after a restart from the
+    export every pending licence is there, unchanged, and the escrow equation is the same one *)
+Theorem export_lists_every_licence_thm : forall (s : state) (k : key) (l : licence),
+  lic_get (lics s) k = Some l -> In (k, l) (g_lics (export_genesis s)).
+Proof. intros s k l H. cbn. rewrite <- in_rev. now apply lic_get_In. Qed.
+
+Theorem restart_keeps_every_licence_thm : forall (s : state) (k : key),
+  NoDup (lic_ids (lics s)) ->
+  lic_get (lics (init_genesis (export_genesis s) s)) k = lic_get (lics s) k /\
+  List.length (lics (init_genesis (export_genesis s) s)) = List.length (lics s).
+Proof.
+  intros s k Hn. unfold init_genesis, export_genesis. cbn [g_lics g_feegranter g_funders g_clients].
+  rewrite import_rev by now apply nodup_keys. split; reflexivity.
+Qed.
+
+Lemma source_round3 :
+  Gen.C18.licence_store_users = ["AllLightNodeClientLicenses:IterAll"; "CreateLightNodeClientAccount:Delete";
+                                 "GetLightNodeClientLicense:Load"; "SetLightNodeClientLicense:Save"]%string /\
+  Gen.C18.licence_list_callers = ["ExportGenesis"; "GetLegacyLightNodeClients"; "GetLightNodeClientLicenses"]%string /\
+  Gen.C18.paloma_pagination_sites = ["GetLegacyLightNodeClients:PageRequest"]%string /\
+  Gen.C18.iterall_loops = []%string /\ Gen.C18.iterall_breaks = 0 /\ Gen.C18.iterall_calls = ["IterAllFnc"]%string /\
+  Gen.C18.iterallfnc_loops = ["for ; iterator.Valid(); iterator.Next()"]%string /\
+  Gen.C18.iterallfnc_breaks = 0 /\ Gen.C18.iterallfnc_calls = ["Iterator"]%string.
+Proof. vm_compute. repeat split; reflexivity. Qed.
